@@ -71,6 +71,10 @@ def gen(tier, seed):
                 if name in ("hlle", "hessian_locally_linear_embedding"):
                     c["o_num_neighbors"] = 15
                     c["o_target_dimension"] = rnd.choice([1, 2])
+                if rnd.random() < 0.45:
+                    c["lexical"] = rnd.choice(["plus", "space", "padded", "exp"])
+                if rnd.random() < 0.15:
+                    c["nofinalnl"] = 1
                 if rnd.random() < 0.15:
                     c["crlf"] = 1
                 if rnd.random() < 0.15:
